@@ -337,8 +337,9 @@ struct ExecutorContext {
     pool_manager: PoolManager,
     /// Difference between the number of sent and received messages.
     ///
-    /// This counter is only updated by worker threads before they park and is
-    /// therefore only consistent once all workers are parked.
+    /// This counter is only updated by worker threads before they mark
+    /// themselves inactive and is therefore only consistent once no worker is
+    /// active.
     msg_count: AtomicIsize,
 }
 
@@ -522,13 +523,20 @@ fn run_local_worker(worker: &Worker, id: usize, parker: Parker, abort_signal: Si
 
             #[cfg(nexosim_verif)]
             crate::verif::point(2);
+            // Fold the message count of this thread into the global count
+            // *before* the worker is marked inactive: the main thread reads
+            // the global count as soon as it sees that no worker is active,
+            // without waiting for the workers to be parked, so an update made
+            // after deactivation could be missed (or be seen without the
+            // matching update of another worker).
+            update_msg_count();
+
             // Try to deactivate the worker.
             if pool_manager.try_set_worker_inactive(id) {
                 #[cfg(nexosim_verif)]
                 crate::verif::point(3);
                 // No need to call `begin_worker_search()`: this was done by the
                 // thread that unparked the worker.
-                update_msg_count();
                 parker.park();
             } else if injector.is_empty() {
                 #[cfg(nexosim_verif)]
@@ -542,7 +550,6 @@ fn run_local_worker(worker: &Worker, id: usize, parker: Parker, abort_signal: Si
                 pool_manager.set_all_workers_inactive();
                 #[cfg(nexosim_verif)]
                 crate::verif::point(5);
-                update_msg_count();
                 #[cfg(nexosim_verif)]
                 crate::verif::point(6);
                 executor_unparker.unpark();
